@@ -1,6 +1,7 @@
 import Chewing.Proofs.EditorCommitHistory
 import Chewing.Props.C06
 import Chewing.Props.C03
+import Chewing.Proofs.EditorLink
 /-!
 # C02 — What is committed is exactly what was displayed; no text is lost or invented
 
@@ -34,7 +35,8 @@ Reading.
 * The tiling hypothesis is needed only AT the states where a commit path runs (`TilesAt`);
   `tilesAt_of_C03` derives it from C03's theorems with exactly C03's hypotheses (`CompValid`, `NoEmptyKey`,
   `WellFormed`, `HasWord` for the simple engine).  That editor histories reach only `CompValid`
-  compositions is C04's invariant, not proved here.
+  compositions with a word for every buffered syllable is C01's invariant `EditorInv`; the section
+  "linked" at the end connects the two: `history_ledger_linked` has no tiling premise.
 -/
 namespace Chewing.C02
 open Chewing Chewing.C06
@@ -872,5 +874,137 @@ example : Shared.display convEnv shTS = .ok [28204, 35430] ∧
 example : ∃ e', ({ shared := { syl := 0, dict := (), com := { cursor := 1, inner := { symbols := [.chr 65], gaps := [.begin] } } } } :
       Editor Unit Nat).processKey toyEnv kEnter = .ok (e', .commit) ∧ e'.shared.commitBuf = [] :=
   ⟨_, rfl, by decide⟩
+
+
+/-! ## linked (round 2): the ledger over histories WITHOUT the tiling premise
+
+`history_ledger` assumes `TilesAlong` (the engine's answer tiles the buffer at every edited state of the
+history).  C01 proves that editor histories outside its known class (F02 / F03) reach only states satisfying
+`EditorInv` — composition valid (C04 / `CompValid`), cursor in range (C05), a word for every buffered
+syllable — for every environment satisfying `EnvOK`; `EnvOK.convert_ok` is C03's theorem about the engines.
+`Proofs/EditorLink.lean` shows that the states INSIDE a step (`editPart`) satisfy the shared-state invariant
+too and derives `TilesAlong` (`Link.tilesAlong_of_allowed`).  Clauses of `EnvOK` used: ALL of them —
+`convert_ok` gives the tiling itself and totality of the commit paths; `wf`, `std_fuzzy`, `add_*`, `update_*`,
+`flush_*`, `remove_good` keep "every buffered syllable has a word" and the well-formedness of the dictionary
+along learning keys and API calls (the invariant the tiling needs); `estimate_ok` makes learning total. -/
+
+section Linked
+open Chewing.C01
+variable {env} {G : D → Prop}
+
+/-- **C02 over histories, linked**: for every environment satisfying C01's `EnvOK`, from every state
+    satisfying C01's reachable-state invariant, along every history that avoids C01's `Known` class
+    (`Allowed`: valid arguments, not F02/F03, no `jump_*` on an open phrase list) the ledger equation holds:
+    characters of all commit strings + symbols left = symbols at the start + characters accepted.
+    No `TilesAlong` premise. -/
+theorem history_ledger_linked (hE : EnvOK env G) {e e' : Editor D L} (hi : EditorInv env G e) {ops : List (Op L)}
+    (ha : Allowed env e ops) {outs : List Text} {acc : Int} (h : e.runLog env ops = .ok (e', outs, acc)) :
+    ((outs.flatten).length : Int) + e'.shared.com.len = e.shared.com.len + acc :=
+  history_ledger env (Link.tilesAlong_of_allowed hE ops e hi ha) h
+
+/-- … and such a history always HAS a log: it runs to the end (C01), ends in a state satisfying the
+    invariant, and the ledger holds -/
+theorem history_ledger_total (hE : EnvOK env G) {e : Editor D L} (hi : EditorInv env G e) {ops : List (Op L)}
+    (ha : Allowed env e ops) :
+    ∃ e' outs acc, e.runLog env ops = .ok (e', outs, acc) ∧ EditorInv env G e' ∧
+      ((outs.flatten).length : Int) + e'.shared.com.len = e.shared.com.len + acc := by
+  obtain ⟨e', hr, hi'⟩ := C01_partial_run hE ops e hi ha
+  obtain ⟨outs, acc, hl⟩ := run_runLog env hr
+  exact ⟨e', outs, acc, hl, hi', history_ledger_linked hE hi ha hl⟩
+
+/-- **from the fresh editor** (empty pre-edit, well-formed dictionary and symbol tables, options as the C API
+    couples them): every allowed history runs, and everything the application received plus what is still
+    in the pre-edit is exactly what the editing parts accepted -/
+theorem history_ledger_fresh (hE : EnvOK env G) (sh : Shared D L) (hg : G sh.dict) (hcom : sh.com = {})
+    (hcp : sh.options.lookupStrategy = .fuzzyPartialPrefix → engStrategy sh.engine = .fuzzyPartialPrefix)
+    (hpp : 0 < sh.options.candidatesPerPage) (hsym : SymWF sh.symSel) {ops : List (Op L)}
+    (ha : Allowed env { shared := sh, state := .entering } ops) :
+    ∃ e' outs acc, ({ shared := sh, state := .entering } : Editor D L).runLog env ops = .ok (e', outs, acc) ∧
+      ((outs.flatten).length : Int) + e'.shared.com.len = acc := by
+  obtain ⟨e', outs, acc, hl, _, hled⟩ := history_ledger_total hE (initial_inv sh hg hcom hcp hpp hsym) ha
+  refine ⟨e', outs, acc, hl, ?_⟩
+  have h0 : ({ shared := sh, state := .entering } : Editor D L).shared.com.len = 0 := by
+    show sh.com.len = 0
+    rw [hcom]; rfl
+  rw [h0] at hled
+  omega
+
+/-- **for the environment whose engine is C03's model** (`Link.EngineIsC03`: `env.convert` is `Conv.convert`
+    on buffers of at most 128 symbols, over dictionaries satisfying C03's hypotheses) and whose dictionary
+    satisfies the dictionary clauses of `EnvOK` (`Link.DictOK`): the same, with C03's theorems in place of
+    the hypothesis on the engine -/
+theorem history_ledger_C03 {pick : Nat → List Conv.Path → Nat} {view : D → Dict} (hd : Link.DictOK env G)
+    (he : Link.EngineIsC03 env G pick view) (sh : Shared D L) (hg : G sh.dict) (hcom : sh.com = {})
+    (hcp : sh.options.lookupStrategy = .fuzzyPartialPrefix → engStrategy sh.engine = .fuzzyPartialPrefix)
+    (hpp : 0 < sh.options.candidatesPerPage) (hsym : SymWF sh.symSel) {ops : List (Op L)}
+    (ha : Allowed env { shared := sh, state := .entering } ops) :
+    ∃ e' outs acc, ({ shared := sh, state := .entering } : Editor D L).runLog env ops = .ok (e', outs, acc) ∧
+      ((outs.flatten).length : Int) + e'.shared.com.len = acc :=
+  history_ledger_fresh (Link.envOK_of_C03 hd he) sh hg hcom hcp hpp hsym ha
+
+/-! ### non-vacuity: a concrete environment over C03's engine model and example dictionary -/
+
+/-- `convEnv` with the engine model on the buffers C03's theorems cover (≤ 128 symbols) -/
+def linkEnv : Env Dict Nat :=
+  { convEnv with
+    convert := fun k d c =>
+      if c.symbols.length ≤ 128 then Conv.convert Conv.pickFirstMin (toEngine k) d c
+      else .ok [singles c.symbols 0] }
+
+theorem linkEnv_dictOK : Link.DictOK linkEnv (fun d => d = C03.dEx) where
+  wf := by intro d hd k s p hp; subst hd; exact C03.dEx_ok.2 k s p hp
+  std_fuzzy := by intro d c hd h; subst hd; exact h
+  add_good := by intro d k p d' hd h _; cases h; exact hd
+  add_mono := by intro d k p d' h c s hh; cases h; exact hh
+  update_good := fun _ _ _ _ _ hd _ => hd
+  update_mono := fun _ _ _ _ _ _ _ hh => hh
+  flush_good := fun _ hd => hd
+  flush_mono := fun _ _ _ hh => hh
+  remove_good := fun _ _ _ hd => hd
+  estimate_ok := fun _ f _ => ⟨f, rfl⟩
+
+theorem linkEnv_engine : Link.EngineIsC03 linkEnv (fun d => d = C03.dEx) Conv.pickFirstMin id where
+  pick_ok := C03.pickFirstMin_inRange
+  engine := by intro k d c h; simp only [linkEnv, h, if_true, id]
+  lookup := fun _ _ _ h => h
+  noEmptyKey := by intro d hd; subst hd; exact C03.dEx_ok.1
+  wellFormed := by intro d hd; subst hd; exact C03.dEx_ok.2
+  freq := by
+    intro d hd strat key p hp
+    subst hd
+    simp only [id, C03.dEx, Dict.ofEntries, List.mem_map, List.mem_filter] at hp
+    obtain ⟨x, ⟨hx, _⟩, rfl⟩ := hp
+    simp only [List.mem_cons, List.not_mem_nil, or_false] at hx
+    rcases hx with rfl | rfl | rfl | rfl <;> decide
+  beyond := by
+    intro k d c _ _ hlen _
+    have : ¬ c.symbols.length ≤ 128 := by omega
+    simp only [linkEnv, this, if_false]
+    refine .ok ⟨by simp, ?_⟩
+    intro p hp
+    simp only [List.mem_cons, List.not_mem_nil, or_false] at hp
+    subst hp
+    refine ⟨?_, singles_text _ 0⟩
+    have := singles_chain c.symbols 0
+    simpa using this
+
+/-- **every key history** on the fresh editor over C03's engine model and example dictionary runs to the
+    end and satisfies the ledger — no premise left -/
+theorem linkEnv_key_histories (keys : List KeyEvent) :
+    ∃ e' outs acc, ({ shared := { syl := 0, dict := C03.dEx } } : Editor Dict Nat).runLog linkEnv (keys.map .key) =
+        .ok (e', outs, acc) ∧ ((outs.flatten).length : Int) + e'.shared.com.len = acc :=
+  history_ledger_C03 linkEnv_dictOK linkEnv_engine { syl := 0, dict := C03.dEx } rfl rfl (fun h => by cases h)
+    (by show (0 : Nat) < 10; omega) symWF_empty
+    (allowed_of_plain _ _ (by
+      intro op hop
+      obtain ⟨k, _, rfl⟩ := List.mem_map.mp hop
+      trivial))
+
+/-- … and the history `h␣ j␣ Enter` really commits the two characters it accepted -/
+example : (({ shared := { syl := 0, dict := C03.dEx } } : Editor Dict Nat).runLog linkEnv
+      [.key kH, .key kSpace, .key kJ, .key kSpace, .key kEnter]).map (fun r => (r.2.1, r.2.2)) =
+    .ok ([[], [], [], [], [28204, 35430]], 2) := by decide +kernel
+
+end Linked
 
 end Chewing.C02
